@@ -539,7 +539,36 @@ func (w *_node) AsString() (string, error) {
 		// user has registered a converter that takes the underlying type and returns a string
 		return customConverter.customToString(ptrVal(w.val).Interface())
 	}
+	if enumType, ok := w.schemaType.(*schema.TypeEnum); ok {
+		if val := nonPtrVal(w.val); val.Kind() != reflect.String {
+			// An int-represented enum bound to a Go integer holds the member's representation int;
+			// at the type level the value is still the member's name.
+			return enumMemberOfGoInt(enumType, val)
+		}
+	}
 	return nonPtrVal(w.val).String(), nil
+}
+
+// enumMemberOfGoInt finds the name of the member of an int-represented enum
+// whose representation int is held in the given Go integer value.
+func enumMemberOfGoInt(typ *schema.TypeEnum, val reflect.Value) (string, error) {
+	stg, ok := typ.RepresentationStrategy().(schema.EnumRepresentation_Int)
+	if !ok {
+		return "", fmt.Errorf("bindnode: enum %s is held in a Go %s but is not int-represented", typ.Name(), val.Kind())
+	}
+	for _, member := range typ.Members() {
+		reprInt, ok := stg[member]
+		if !ok {
+			continue
+		}
+		if kindInt[val.Kind()] && val.Int() == int64(reprInt) {
+			return member, nil
+		}
+		if kindUint[val.Kind()] && reprInt >= 0 && val.Uint() == uint64(reprInt) {
+			return member, nil
+		}
+	}
+	return "", fmt.Errorf("AsString: %v is not a valid member of enum %s", val.Interface(), typ.Name())
 }
 
 func (w *_node) AsBytes() ([]byte, error) {
@@ -997,6 +1026,27 @@ func (w *_assembler) AssignString(s string) error {
 		}
 		if !valid {
 			return fmt.Errorf("AssignString: %q is not a valid member of enum %s", s, enumType.Name())
+		}
+		if val := w.createNonPtrVal(); customConverter == nil && val.Kind() != reflect.String {
+			// An int-represented enum bound to a Go integer stores the member's representation int.
+			stg, _ := enumType.RepresentationStrategy().(schema.EnumRepresentation_Int)
+			reprInt, ok := stg[s]
+			if !ok {
+				return fmt.Errorf("bindnode: enum %s is held in a Go %s but member %q has no representation int", enumType.Name(), val.Kind(), s)
+			}
+			if kindInt[val.Kind()] {
+				val.SetInt(int64(reprInt))
+			} else if kindUint[val.Kind()] && reprInt >= 0 {
+				val.SetUint(uint64(reprInt))
+			} else {
+				return fmt.Errorf("bindnode: cannot assign %d to %s", reprInt, val.Type())
+			}
+			if w.finish != nil {
+				if err := w.finish(); err != nil {
+					return err
+				}
+			}
+			return nil
 		}
 	}
 	if customConverter != nil {
